@@ -407,3 +407,38 @@ def same_as_specialised(wrapper, callee, ctx):
     for k, oa, ob in d:
         parts += ["%s only in %s: %s" % (k, wrapper.name, x[:160]) for x in oa] + ["%s only in %s[%s]: %s" % (k, callee.name, ctx, x[:160]) for x in ob]
     return False, "; ".join(parts[:6])
+
+
+def verified_conditions(h, callee_suffix="verify_constraint"):
+    """Conditions a Pinocchio handler demands through `verify_constraint(c)?`: [(condition term, block of the call, line)]. For
+    `verify_constraint(a && b)?` both a and b: the argument is then `b` or the literal false, and a guard atom under whose
+    false outcome the argument is the literal false is itself a demanded conjunct."""
+    from analysis.prov import prov_assuming
+    pv = prov_of(h)
+    out = []
+    for bi, t in h.calls():
+        if not (callee_path(t) or "").endswith(callee_suffix) or h.blocks[bi]["c"] or not t["a"]:
+            continue
+        arg = pv.operand(t["a"][0], bi, len(h.blocks[bi]["s"]))
+        lv = [strip(x) for x in leaves(arg)]
+        real = [x for x in lv if not (x[0] == "const" and x[1] in (0, False))]
+        if len(lv) == 1 or len(real) != 1:
+            out.append((arg, bi, t["l"]))
+            continue
+        out.append((real[0], bi, t["l"]))
+        for at in A.atoms(h):
+            if not cfg.dominates(h, at.block, bi) or at.block == bi:
+                continue
+            for truth in (False, True):
+                try:
+                    pa = prov_assuming(h, [(at, truth)])
+                except Exception:
+                    continue
+                if pa.flow is not None and pa.flow.state_in[bi] is None:
+                    continue
+                v = [strip(x) for x in leaves(pa.operand(t["a"][0], bi, len(h.blocks[bi]["s"])))]
+                if v and all(x[0] == "const" and x[1] in (0, False) for x in v):
+                    # this outcome of the atom makes the verified condition false: the opposite outcome is demanded
+                    term = at.term if truth is False else ("un", "Not", at.term)
+                    out.append((term, bi, t["l"]))
+    return out
